@@ -75,6 +75,31 @@ func runC01(c *Ctx, pr *PropertyRun) {
 	c01Structure(c, pr)
 }
 
+// comparesValues: f tests a against b with ==, !=, strings.HasPrefix,
+// os.SameFile or filepath.Rel.
+func comparesValues(f *ssa.Function, a, b ssa.Value, dependsOn func(v, target ssa.Value, depth int) bool) bool {
+	found := false
+	eachInstr(f, func(_ *ssa.BasicBlock, in ssa.Instruction) {
+		switch x := in.(type) {
+		case *ssa.BinOp:
+			if x.Op == token.EQL || x.Op == token.NEQ {
+				if (dependsOn(x.X, a, 0) && dependsOn(x.Y, b, 0)) || (dependsOn(x.X, b, 0) && dependsOn(x.Y, a, 0)) {
+					found = true
+				}
+			}
+		case ssa.CallInstruction:
+			n := calleeName(x.Common())
+			if n == "strings.HasPrefix" || n == "os.SameFile" || n == "path/filepath.Rel" {
+				args := x.Common().Args
+				if len(args) == 2 && ((dependsOn(args[0], a, 0) && dependsOn(args[1], b, 0)) || (dependsOn(args[0], b, 0) && dependsOn(args[1], a, 0))) {
+					found = true
+				}
+			}
+		}
+	})
+	return found
+}
+
 // c01Structure: two structural necessary conditions of COPY/MOVE.
 func c01Structure(c *Ctx, pr *PropertyRun) {
 	p := c.P
@@ -92,6 +117,17 @@ func c01Structure(c *Ctx, pr *PropertyRun) {
 		in, ok := v.(ssa.Instruction)
 		if !ok {
 			return false
+		}
+		// a variable captured by a closure lives in a cell: what is loaded
+		// from it is what was stored into it
+		if ld, isLoad := v.(*ssa.UnOp); isLoad && ld.Op == token.MUL {
+			if al, isAlloc := ld.X.(*ssa.Alloc); isAlloc && al.Referrers() != nil {
+				for _, ref := range *al.Referrers() {
+					if st, isStore := ref.(*ssa.Store); isStore && st.Addr == al && dependsOn(st.Val, target, depth+1) {
+						return true
+					}
+				}
+			}
 		}
 		for _, op := range in.Operands(nil) {
 			if *op != nil && dependsOn(*op, target, depth+1) {
@@ -190,9 +226,24 @@ func c01Structure(c *Ctx, pr *PropertyRun) {
 						}
 					case ssa.CallInstruction:
 						n := calleeName(x.Common())
+						args := x.Common().Args
 						if n == "strings.HasPrefix" || n == "os.SameFile" || n == "path/filepath.Rel" {
-							args := x.Common().Args
 							if len(args) == 2 && a != nil && b != nil && ((dependsOn(args[0], a, 0) && dependsOn(args[1], b, 0)) || (dependsOn(args[0], b, 0) && dependsOn(args[1], a, 0))) {
+								compared = true
+							}
+						} else if g := x.Common().StaticCallee(); g != nil && p.InModule(g) && len(g.Blocks) > 0 && a != nil && b != nil {
+							// a helper of the module that is handed both paths
+							// and compares two of its parameters (whatever it
+							// is called)
+							ia, ib := -1, -1
+							for i, arg := range args {
+								if dependsOn(arg, a, 0) && ia < 0 {
+									ia = i
+								} else if dependsOn(arg, b, 0) && ib < 0 {
+									ib = i
+								}
+							}
+							if ia >= 0 && ib >= 0 && ia < len(g.Params) && ib < len(g.Params) && comparesValues(g, g.Params[ia], g.Params[ib], dependsOn) {
 								compared = true
 							}
 						}
